@@ -258,8 +258,8 @@ func c15Sys(idx int, c *runner.Case) jx.Obj {
 	case 7:
 		op["parameters"] = jx.Arr{q("a", "query", 1), ref("#/definitions/D"), q("b", "query", 2)}
 	case 8:
-		pi["parameters"] = jx.Arr{q("a", "query", 1), ref("#/responses/r")}
-		op["parameters"] = jx.Arr{ref("#/parameters/shared/name"), q("b", "query", 2), ref("#/nowhere")}
+		pi["parameters"] = jx.Arr{q("a", "query", 1), ref("#/responses/r"), ref("shared/offset.json")}
+		op["parameters"] = jx.Arr{ref("#/parameters/shared/name"), q("b", "query", 2), ref("#/nowhere"), ref("http://example.com/params/body.json")}
 	case 12: // an x-go-name extension does not change which parameter overrides which
 		withExt := q("limit", "query", 1)
 		withExt["x-go-name"] = "MaxItems"
